@@ -37,8 +37,15 @@ valid if the number modulo 97 is 1. As such it has two check digits.
 from stdnum.exceptions import *
 
 
+# the characters that can be used in numbers (int(x, 36) would also accept
+# every other Unicode decimal digit)
+_alphabet = '0123456789ABCDEFGHIJKLMNOPQRSTUVWXYZabcdefghijklmnopqrstuvwxyz'
+
+
 def _to_base10(number):
     """Prepare the number to its base10 representation."""
+    if not all(x in _alphabet for x in number):
+        raise InvalidFormat()
     return ''.join(
         str(int(x, 36)) for x in number)
 
